@@ -1,7 +1,7 @@
 (* C09 — Re-encoding a decoded message preserves header bytes and signature validity.
    Statements only (copied from coq/theories by bin/mkprops); each proof is `exact <lemma>`. *)
 From Coq Require Import Ascii String ZArith List Bool Permutation.
-From GoCose Require Import Bytes Cbor CborProofs Res GoVal Obs Ecdsa EcdsaProofs Fx Headers Enc Dec Msg HashEnv Key SigVer Run TbsProofs FlowProofs DecProofs KeyProofs HdrProofs EncProofs EncCanon NoPanic Effects.
+From GoCose Require Import Bytes Cbor CborProofs Res GoVal Obs Ecdsa EcdsaProofs Fx Headers Enc Dec Msg HashEnv Key SigVer Run TbsProofs FlowProofs DecProofs KeyProofs HdrProofs EncProofs EncCanon NoPanic Effects MoreProofs.
 From GoCose.Gen Require Import Generated.
 Import ListNotations.
 Open Scope Z_scope.
@@ -46,3 +46,15 @@ Theorem C09_renorm_field_shortest :
   short b -> parse_full (enc_bstr b) = Some (tbstr b) /\ renorm_field (tbstr b) = enc_bstr b.
 Proof. exact renorm_field_shortest. Qed.
 Print Assumptions C09_renorm_field_shortest.
+
+(* COSE_Sign with any number of signers: every bucket of the body and of each signer reproduced byte for byte *)
+Theorem C09_signmsg_reencode :
+  forall data m,
+  unmarshal_signmsg data = Acc m ->
+  exists p u pl ws items,
+    data = 216 :: 98 :: 132 :: ser p ++ ser u ++ ser pl ++ ser (WArr ws items) /\
+    marshal_signmsg m =
+      Acc (216 :: 98 :: 132 :: ser p ++ ser u ++ renorm_field pl ++
+           enc_head 4 (len items) ++ concat (map renorm_sig_item items)).
+Proof. exact signmsg_reencode. Qed.
+Print Assumptions C09_signmsg_reencode.
